@@ -72,6 +72,7 @@ empty string); and the re-encoded payload is bit for bit the received one when n
 normalised (and no ragged tail is involved). -/
 theorem msg_reencode (env : Env) (E : EnumInfo) (fromRot : List String)
     (htab : TablesOk env E = true) (hrot : RotTablesOk env E fromRot = true)
+    (henum : EnumRTOk env E = true)
     (cls : String) (fs : List Field) (ht : TableRT E fromRot fs = true)
     (bits : Bits) (hb : OnBoundary fs bits.length) (hpad : PadZero E fs bits) :
     ∃ kv bits', seqDecode env bits 0 fs = .ok kv ∧
